@@ -30,12 +30,14 @@ def worker(args):
         wrap = top and rnd.random() < 0.5
         full = [0] * 65536
         full[org:org + size] = mem
-        lines = ctlgen.gen_doc(rnd, full, start, end)
+        ign = []
+        opts = pipedrv.gen_options(rnd)
+        lines = ctlgen.gen_doc(rnd, full, start, end, ignored=ign if k % 3 == 0 else None, loops=(k % 3 == 1), rst='-r' in opts)
         if end >= 65536:
             lines = [l for l in lines if not l.startswith('i 65536')]
-        opts = pipedrv.gen_options(rnd)
         c = pipedrv.pipeline(sub, k, mem, org, start, end, lines, opts, wrap)
         c['mem'] = full[start:end]
+        c['ignored'] = ign
         c['kind'] = kind
         # with Wrap=1 an instruction starting before 65536 may run past it: those bytes are outside [start,end)
         out.append(c)
@@ -72,7 +74,7 @@ def run(tier):
                       'range %d-%d opts %s: %s; %s\nctl:\n%s' % (c['start'], c['end'], ' '.join(c['opts'][6:]), clause, c['err'] or c['stderr'][:200],
                                                               '\n'.join(c['ctl'][:30])), c)
     rep.rule = ('image class x range x generated control file (b/c/g/s/t/u/w blocks, B/C/S/T/W sub-blocks, sublength lists with '
-                'base prefixes, * multipliers, string/byte mixes, M directives) x options (-H -l -w, DefbSize/DefmSize/DefwSize, '
+                'base prefixes, * multipliers, string/byte mixes, L loops with and without the block flag, mid-range i blocks) x options (-H -l -w, DefbSize/DefmSize/DefwSize, '
                 'Opcodes, Timings, Text, InstructionWidth, Semicolons, Wrap); distinct_nontrivial = distinct (image class, ctl, options)')
     rmworkdir('c01')
     return rep.finish()
